@@ -23,6 +23,10 @@ type c06Case struct {
 	Code   int      `json:"code,omitempty"`
 	Types  []uint16 `json:"types,omitempty"`
 	Filler byte     `json:"filler,omitempty"`
+	// text: first and last byte of the value (a value that looks quoted, bracketed, padded or terminated), 0,0 = none
+	First byte `json:"first,omitempty"`
+	Last  byte `json:"last,omitempty"`
+	Edged bool `json:"edged,omitempty"`
 	// Pre: an encoding of a DIFFERENT attribute into another message that happens first (1 UNKNOWN-ATTRIBUTES,
 	// 2 ERROR-CODE, 3 text, 4 XOR address); the case's bytes must not depend on it.
 	Pre int `json:"pre,omitempty"`
@@ -440,6 +444,9 @@ func c06Check1(k c06Case) (string, string) {
 		for i := range val {
 			val[i] = k.Filler + byte(i*31)
 		}
+		if k.Edged && len(val) > 0 {
+			val[0], val[len(val)-1] = k.First, k.Last
+		}
 		at := stun.AttrType(k.Attr)
 		var err error
 		switch at {
@@ -749,6 +756,22 @@ func init() {
 				for l := 0; l <= ta.max; l++ {
 					for _, f := range []byte{0x00, 0x41, 0xFF} {
 						do(c06Case{Kind: "text", Attr: ta.t, Len: l, Filler: f, TID: tids[2]}, "text")
+					}
+				}
+			}
+			// text that looks quoted, bracketed, padded or terminated: the value is opaque to the codec (RFC 5389 15.3,
+			// 15.7-15.10 give no delimiters), so every (first, last) pair over the delimiter alphabet must read back as
+			// written, at every small length and at the limit
+			delims := []byte{'"', '\'', '<', '>', '(', ')', '[', ']', '{', '}', ' ', 0, '\n', '\r', '\t', ':', '%', '\\', ',', ';', '=', 0xFF}
+			for _, ta := range []struct {
+				t   uint16
+				max int
+			}{{0x0006, 513}, {0x0014, 763}, {0x0015, 763}, {0x8022, 763}} {
+				for _, a := range delims {
+					for _, b := range delims {
+						for _, l := range []int{1, 2, 3, 4, 5, 8, 9, 16, 40, ta.max} {
+							do(c06Case{Kind: "text", Attr: ta.t, Len: l, Filler: 0x61, TID: tids[2], Edged: true, First: a, Last: b}, "text/delimited")
+						}
 					}
 				}
 			}
